@@ -1,5 +1,13 @@
 /-
-  C19 — property theorems (placeholder: no theorem yet, the property is not claimed).
+  C19 — triangles and polylines. This root file holds no theorem of its own: the property theorems
+  are in the files of `EG/Props/C19/` (every file there is built and audited by `./check C19`):
+    Triangle.lean  filled triangles: interior covered, covered points within one pixel of an edge,
+                   vertex-order independence, shared edges (no gap, same pixels), one-pixel outline =
+                   the three edge lines (scanline model)
+    Polyline.lean  one-pixel polylines = the segment lines, shared joints once
+    Joins.lean     the one-pixel outline as drawn by the styled path (thick-segment / join model)
+    Arithmetic.lean  the i32 products of `area_doubled` / `contains` do not overflow for |coordinates| <= 8192
+  Sub-claims that are not proved are the `-- [V]` lines of those files.
 -/
 import EG.Basic.Core
 namespace EG.C19
